@@ -8,6 +8,7 @@ import OsuProofs.NewtonMirror
 import OsuProofs.MemRotation
 import OsuProofs.CholeskyNewton
 import OsuProofs.CholeskyPD
+import OsuProofs.JacobianPD
 /-
 C06 — estimators reproduce the input moments; solvers agree; the Jacobian is the derivative of
 the constraint function; output rotates with input.
@@ -371,6 +372,47 @@ example : PosDef4 1 0 1 0 0 1 0 0 0 1 := by
     · have := mul_self_pos.2 h; nlinarith [mul_self_nonneg v0, mul_self_nonneg v1, mul_self_nonneg v3]
     · have := mul_self_pos.2 h; nlinarith [mul_self_nonneg v0, mul_self_nonneg v1, mul_self_nonneg v2]
   nlinarith
+
+/-! ### closing the loop: the iteration with the model's own solver -/
+
+/-- **the constraint Jacobian is positive definite** (not only semidefinite) for every multiplier
+vector on every uniform grid with at least five directions: `x·T(θ)` cannot be constant on five or
+more equally spaced directions unless `x = 0` (its sample variance is `|x|²/2`, discrete Parseval),
+and a variance under positive weights vanishes only for constants -/
+theorem jacobian_positive_definite {N : ℕ} [NeZero N] (hN : 5 ≤ N) (θ0 Δ : ℝ) (hΔ : 0 < Δ) (lam : List ℝ) :
+    PosDef4 (jacEntry lam (gridDelta N Δ) (gridT (N := N) θ0) 0 0)
+      (jacEntry lam (gridDelta N Δ) (gridT (N := N) θ0) 1 0) (jacEntry lam (gridDelta N Δ) (gridT (N := N) θ0) 1 1)
+      (jacEntry lam (gridDelta N Δ) (gridT (N := N) θ0) 2 0) (jacEntry lam (gridDelta N Δ) (gridT (N := N) θ0) 2 1)
+      (jacEntry lam (gridDelta N Δ) (gridT (N := N) θ0) 2 2)
+      (jacEntry lam (gridDelta N Δ) (gridT (N := N) θ0) 3 0) (jacEntry lam (gridDelta N Δ) (gridT (N := N) θ0) 3 1)
+      (jacEntry lam (gridDelta N Δ) (gridT (N := N) θ0) 3 2) (jacEntry lam (gridDelta N Δ) (gridT (N := N) θ0) 3 3) :=
+  jacobian_posDef hN θ0 Δ hΔ lam
+
+/-- so the Cholesky solver of the model (`cholSolve4`: the value the iteration uses) never fails on
+it and is an exact solver: the hypothesis of the rotation / mirror theorems holds for it -/
+theorem cholesky_is_exact_solver {N : ℕ} [NeZero N] (hN : 5 ≤ N) (bad θ0 Δ : ℝ) (hΔ : 0 < Δ) :
+    ExactSolve (N := N) (cholSolve4 bad) θ0 Δ :=
+  exactSolve_cholesky hN bad θ0 Δ hΔ
+
+/-- **MEM2 / Newton as modelled — damped Newton iteration, line search, Cholesky solve — rotates with
+its input, with no hypothesis on the solver**: for every uniform grid with `N ≥ 5`, every rotation `k`,
+tolerance, iteration cap and line-search depth, converged or not -/
+theorem newton_rotates_cholesky {N : ℕ} [NeZero N] (hN : 5 ≤ N) (bad atol : ℝ) (maxIter lsDepth : ℕ)
+    (θ0 Δ : ℝ) (hΔ : 0 < Δ) (k : Fin N) (a1 b1 a2 b2 : ℝ) :
+    ∃ D : Fin N → ℝ,
+      mem2Newton (cholSolve4 bad) atol maxIter lsDepth [a1, b1, a2, b2] (gridDelta N Δ) (gridT (N := N) θ0) = List.ofFn D ∧
+      mem2Newton (cholSolve4 bad) atol maxIter lsDepth (rotLam (phiR k) [a1, b1, a2, b2]) (gridDelta N Δ) (gridT (N := N) θ0)
+        = List.ofFn (Osu.Rot.rotE k D) :=
+  mem2Newton_rot_exact (cholSolve4 bad) atol maxIter lsDepth θ0 Δ hΔ k (exactSolve_cholesky hN bad θ0 Δ hΔ) a1 b1 a2 b2
+
+/-- … and mirrors with it (grid starting at 0) -/
+theorem newton_mirrors_cholesky {N : ℕ} [NeZero N] (hN : 5 ≤ N) (bad atol : ℝ) (maxIter lsDepth : ℕ)
+    (Δ : ℝ) (hΔ : 0 < Δ) (a1 b1 a2 b2 : ℝ) :
+    ∃ D : Fin N → ℝ,
+      mem2Newton (cholSolve4 bad) atol maxIter lsDepth [a1, b1, a2, b2] (gridDelta N Δ) (gridT (N := N) 0) = List.ofFn D ∧
+      mem2Newton (cholSolve4 bad) atol maxIter lsDepth [a1, -b1, a2, -b2] (gridDelta N Δ) (gridT (N := N) 0)
+        = List.ofFn (Osu.Rot.mirE D) :=
+  mem2Newton_mirror_exact (cholSolve4 bad) atol maxIter lsDepth Δ hΔ (exactSolve_cholesky hN bad 0 Δ hΔ) a1 b1 a2 b2
 
 /-- the hypothesis is met: the identity matrix is factorised and the system solved -/
 example : cholSolve [[1, 0, 0, 0], [0, 1, 0, 0], [0, 0, 1, 0], [0, 0, 0, (1 : ℝ)]] [1, 2, 3, 4] = some [1, 2, 3, 4] := by
